@@ -121,14 +121,19 @@ func rulesC06(e *Engine, r *Report) {
 	r.Min("R06.2", "in-place writers in stage/cache (all on .part)", nw, 2)
 
 	// ---------------------------------------------------------------- R06.3
-	r.Rule("R06.3", "log ≺ move ≺ finalized ≺ companion removal in the deliverer; in fileutil.Move the final name appears only by an atomic rename - of the source itself, or of <dst>.lck after a complete copy (other file system) -, the source is never parked under an intermediate name, the source is removed only after the copy succeeded, and nil is returned only after the final rename succeeded")
+	r.Rule("R06.3", "log ≺ move ≺ finalized ≺ companion removal in the deliverer (the record may have been written by an earlier attempt: a non-zero `logged` stamp counts, the stamp being set only right after the record is written or from a parsed record); in fileutil.Move the final name appears only by an atomic rename - of the source itself, or of <dst>.lck after a complete copy (other file system) -, the source is never parked under an intermediate name, the source is removed only after the copy succeeded, and nil is returned only after the final rename succeeded")
 	if fn := needFn(e, r, "R06.3", "stage.(*Stage).putFileAway"); fn != nil {
 		mv := "call(fileutil.Move)((p1.path + \".wait\"), §)"
-		cls := labeler(
+		ls := []L{
 			I("invoke(sts.ReceiveLogger.Received)(p0.logger, p1)", "logged"),
 			C("("+mv+" == nil)", "moved"),
 			I("call(stage.(*Stage).toCache)(p0, p1, "+sc.finalized+")", "finalizedSet"),
-		)
+		}
+		if e.loggedStampHonest(r, "R06.3") {
+			// a non-zero stamp stands for a record written earlier (a retried move)
+			ls = append(ls, C("!call(time.(Time).IsZero)(p1.logged)", "logged"))
+		}
+		cls := labeler(ls...)
 		n := e.Guarded(r, "R06.3", "stage.(*Stage).putFileAway: fileutil.Move", fn, e.instrMatch(mv), cls,
 			func(l LabelSet) bool { return l.Has("logged") }, "receive-log record written first")
 		n += e.Guarded(r, "R06.3", "stage.(*Stage).putFileAway: toCache(finalized)", fn, e.instrMatch("call(stage.(*Stage).toCache)(p0, p1, "+sc.finalized+")"), cls,
@@ -415,7 +420,7 @@ func rulesC06(e *Engine, r *Report) {
 		r.Min("R06.7", "validator calls in recovery", n, 1)
 	}
 	// ---------------------------------------------------------------- R06.8
-	r.Rule("R06.8", "the companion is the recovery index (Recover finds its work only through companions): every removal of a companion in package stage sits in the frozen table and is guarded so that no undelivered .full/.wait body can be left without one - deliverer: after finalized; duplicate arm: known file finalized or later; validator: only together with the unreadable .full; initStageFile: state unknown/failed; recovery: orphan; cleaner: R20.2")
+	r.Rule("R06.8", "the companion is the recovery index (Recover finds its work only through companions): every removal of a companion in package stage sits in the frozen table and is guarded so that no undelivered .full/.wait body can be left without one - deliverer: after finalized; duplicate arm: known file finalized or later; validator: only together with the unreadable .full; initStageFile: state unknown/failed; recovery: orphan, or the leftover of a duplicate of a delivered version; cleaner: R20.2")
 	{
 		type rmRule struct {
 			need func(LabelSet) bool
@@ -431,8 +436,11 @@ func rulesC06(e *Engine, r *Report) {
 				labeler(C("(call(fileutil.FileMD5)(§)#1 != nil)", "unreadable"))},
 			"stage.(*Stage).initStageFile": {func(l LabelSet) bool { return l.HasAny("unknown", "failed") }, "state unknown or failed",
 				labeler(C("(call(stage.(*Stage).getFileState)(p0, p1) == "+sc.unknown+")", "unknown"), C("(call(stage.(*Stage).getFileState)(p0, p1) == "+sc.failed+")", "failed"))},
-			"stage.(*Stage).Recover": {func(l LabelSet) bool { return l.Has("orphan") }, "no body of any kind exists",
-				labeler(C("call(os.IsNotExist)(call(os.Stat)(call(strings.TrimSuffix)(p0, \".cmp\"))#1)", "orphan"))},
+			"stage.(*Stage).Recover": {func(l LabelSet) bool { return l.Has("orphan") || l.HasAll("delivered", "sameHash") }, "no body of any kind exists, or the body is a duplicate of a version the cache knows as finalized or later with the same hash",
+				labeler(C("call(os.IsNotExist)(call(os.Stat)(call(strings.TrimSuffix)(p0, \".cmp\"))#1)", "orphan"),
+					C("("+sc.finalized+" <= call(stage.(*Stage).fromCache)(§).state)", "delivered"),
+					C("(call(stage.(*Stage).fromCache)(§).hash == §.hash)", "sameHash"),
+					C("(§.hash == call(stage.(*Stage).fromCache)(§).hash)", "sameHash"))},
 			"stage.(*Stage).cleanStrays": {func(l LabelSet) bool { return true }, "decided by R20.2", nil},
 		}
 		n := 0
@@ -527,6 +535,8 @@ func rulesC06(e *Engine, r *Report) {
 	e.shareRule(r, "C20", "R20.2", "R06.13", "the cleaner does not take away what recovery needs: the companion of a validated, parked file is the only record a restart finds it by - the stray cleaner removes a companion only together with the stray partial of a LOGGED file (or on the strength of a log record with the companion's hash)")
 	// ---------------------------------------------------------------- R06.15
 	e.shareRule(r, "C15", "R15.5", "R06.15", "the stage that recovers is the stage that serves: the gatekeeper on which Recover is started at start-up is stored under the key requests look it up by (the source name, not its directory spelling) - otherwise a second stage is built over the same directories, ready at once, with an empty cache")
+	// ---------------------------------------------------------------- R06.16
+	e.shareRule(r, "C05", "R05.16", "R06.16", "a file already logged and delivered is not delivered again after a crash: the leftovers of a duplicate that was being discarded (partial and complete companion) are not promoted, validated and moved by the recovery")
 }
 
 // checkRecoverReadiness: Recover keeps readiness cleared across every step and
@@ -627,4 +637,55 @@ func (e *Engine) checkCutsets(r *Report, rule string) {
 		}
 	}
 	r.Min(rule, "strings.Trim/TrimLeft/TrimRight call sites examined", n, 3)
+}
+
+// loggedStampHonest: `file.logged` is non-zero only when a receive-log record
+// for the file exists - it is stored either right after ReceiveLogger.Received
+// for the same object, or into a record built from a parsed line of the log
+// (the refill). Where this holds, a deliverer may take a non-zero stamp for
+// `already logged` (a retried move does not repeat the record).
+func (e *Engine) loggedStampHonest(r *Report, rule string) bool {
+	ok, n := true, 0
+	for _, fn := range e.FuncsIn("stage") {
+		var stores []*ssa.Store
+		Instrs(fn, func(in ssa.Instruction) {
+			st, isStore := in.(*ssa.Store)
+			if !isStore {
+				return
+			}
+			fa, isFA := st.Addr.(*ssa.FieldAddr)
+			if !isFA {
+				return
+			}
+			if f := fieldVar(fa.X, fa.Field); f != nil && f.Name() == "logged" && strings.HasSuffix(strings.TrimPrefix(fa.X.Type().String(), "*"), "stage.finalFile") {
+				stores = append(stores, st)
+			}
+		})
+		for _, st := range stores {
+			n++
+			obj := e.Canon(st.Addr.(*ssa.FieldAddr).X)
+			construct := e.ShortName(fn) + ": " + shorten(obj) + ".logged is stamped only for a record that exists"
+			if top := EnclosingTop(fn); fn.Parent() != nil && e.ShortName(top) == "stage.(*Stage).buildCache" && strings.HasPrefix(obj, "&new(stage.finalFile)") {
+				if _, isParam := st.Val.(*ssa.Parameter); isParam {
+					r.Ok(rule, construct, e.InstrPos(st), 1, "the time of a parsed log record (refill)")
+					continue
+				}
+			}
+			cls := labeler(I("invoke(sts.ReceiveLogger.Received)(«\\^?»p0.logger, "+obj+")", "logged"))
+			res := e.Flow(fn, FlowOpts{Classify: cls, Target: only(st)})
+			good := !res.Undecided && len(res.At) > 0
+			for _, ws := range res.At {
+				for _, w := range ws {
+					if !w.Has("logged") {
+						good = false
+					}
+				}
+			}
+			if !r.Check(good, rule, construct, e.InstrPos(st), "the stamp `logged` is set on a path that has not written the receive-log record for that file: a deliverer that skips the record for a stamped file would deliver without a record", res.Evals) {
+				ok = false
+			}
+		}
+	}
+	r.Min(rule, "stores of finalFile.logged in package stage", n, 2)
+	return ok && n >= 2
 }
